@@ -11,6 +11,8 @@ import operator
 import pickle
 from typing import Any, Callable, Dict, List, Optional
 
+import json
+
 import numpy
 
 from . import core, model
@@ -532,6 +534,20 @@ def _install() -> None:
     _reg("to_sympy", lambda ch: g_unary(ch, shape=ch.choice([(), (), (2,)]), kind=ch.choice(["int", "float"]), max_terms=4), _to_sympy, "polyfn", weight=1)
     _reg("pickle", g_unary, lambda a, k: pickle.loads(pickle.dumps(a[0], protocol=k.get("protocol", 2))), "polyfn")
 
+    def g_copyto(ch: core.Chooser) -> dict:
+        # destination (declared output, exempt from the snapshot) and a source over the same indeterminates that may hold
+        # non-finite numbers; the source is an argument like any other
+        dst = gen_poly(ch.sub("dst"), kind="int", max_terms=3)
+        src = json.loads(json.dumps(dst))
+        src["dtype"] = "float64"
+        pool = [1.5, -2.0, 0.0, float("nan"), float("inf"), float("-inf"), 3.0]
+        src["coefficients"] = [[ch.choice(pool) for _ in col] for col in dst["coefficients"]]
+        kw: Dict[str, Any] = {"casting": ch.choice(["unsafe", "unsafe", "same_kind", "safe"])}
+        return {"args": [P(dst), P(src)], "kwargs": kw, "outputs": [0]}
+
+    _reg("copyto", g_copyto, lambda a, k: n.copyto(a[0], a[1], **k), "polyfn", weight=1)
+    _reg("numpy.copyto", g_copyto, lambda a, k: numpy.copyto(a[0], a[1], **k), "polyfn", weight=1)
+
     def _savetxt(spelling: str) -> Callable:
         def call(a: list, k: dict) -> Any:
             import io
@@ -679,7 +695,10 @@ def gen_op(ch: core.Chooser, filter_: Optional[Callable[[Op], bool]] = None, onl
     pool = [(OPS[k].weight, k) for k in (only if only is not None else OPS) if filter_ is None or filter_(OPS[k])]
     name = ch.weighted(pool)
     spec = _decorate(ch.sub("deco"), name, OPS[name].gen(ch.sub("g")))
-    return {"op": name, "args": spec["args"], "kwargs": spec.get("kwargs", {})}
+    out = {"op": name, "args": spec["args"], "kwargs": spec.get("kwargs", {})}
+    if spec.get("outputs"):
+        out["outputs"] = spec["outputs"]
+    return out
 
 
 LAST_PARENTS: List[Any] = []  # parents of the view arguments of the last build_args call (C17 snapshots them too)
